@@ -217,7 +217,7 @@ func (c *Ctx) validatorSummary(ta *ssa.TypeAssert) (string, bool) {
 		okAll := true
 		n := 0
 		for _, r := range core.ReturnsOf(f) {
-			if c.M.ProvablyNonNilError(r.Results[ei], r.Block()) {
+			if c.M.ProvablyNonNilError(core.RetVal(r, ei), r.Block()) {
 				continue
 			}
 			n++
@@ -254,7 +254,7 @@ func (c *Ctx) typeIDsOf(named *types.Named) ([]string, bool) {
 		if len(r.Results) != 1 {
 			return nil, false
 		}
-		s, ok := core.ConstString(r.Results[0])
+		s, ok := core.ConstString(core.RetVal(r, 0))
 		if !ok {
 			return nil, false
 		}
